@@ -171,7 +171,7 @@ def run(rep: Report, rng, tier: str, known: dict, search: bool = False) -> None:
 def evidence(rep: Report) -> None:
     write_evidence(
         rep,
-        rule="cases = (expression, point): every kind of constrained node (Divide, Reciprocal, Power, NthRoot n=2..5, Logarithm) with random arguments, alone, wrapped under random parents, and hidden under every parent that makes it irrelevant to the value (zero factor in any position, zero numerator, base one, Exponential base 1, x-x factor), plus rule patterns and random trees; points from a dyadic grid containing 0, negatives and neighbours; non-trivial = the tree contains a constrained node; distinct by (wire form, point)",
+        rule="cases = (expression, point): every kind of constrained node (Divide, Reciprocal, Power, NthRoot n=2..5, Logarithm) with random arguments, alone, wrapped under random parents, and hidden under every parent that makes it irrelevant to the value (zero factor in any position, zero numerator, base one, Exponential base 1, x-x factor), plus rule patterns and random trees; points from a dyadic grid containing 0, negatives and neighbours; non-trivial = the tree contains a constrained node; distinct by (wire form, point); plus cancelling and wide parents, int-exact sums under every restricted node (decided by the exact instance), the same Point object reused after other entry points ran elsewhere",
         trusted=common.TRUSTED,
         assumptions=[common.ASSUME_RANGE,
                      "the implementation decides ==0 / <0 on rounded intermediates: outcomes are compared only where the model's guard decisions are stable under its error bound (others counted as rounding-ambiguous / rounding-divergence)"],
